@@ -165,7 +165,7 @@ Definition mismatch (cs : case) : bool :=
         negb (loc_ok (oc_loc o) (RespHeaders.hget RespHeaders.k_location h) (RespHeaders.hget RespHeaders.k_location (ob_hdr ob))) ||
         negb (list_eqb Corr_C18.hval_eqb (RespHeaders.hget RespHeaders.k_set_cookie h) (ob_set ob))
     end in
-  let m_session := negb (CorrProxy.effect_close (oc_session o) (ob_session ob)) in
+  let m_session := negb (CorrProxy.effect_close (visible_session (dp_cookie_name d) (oc_client o) (oc_session o)) (ob_session ob)) in
   let m_calls := negb (list_eqb call_eqb (oc_calls o) (ob_calls ob)) in
   m_backend || m_client || m_session || m_calls.
 
@@ -192,13 +192,32 @@ Definition exp_target (h : str) (u : iupstream) : str :=
 
 Definition fixed_paths : list str := [p_robots; p_certs; p_sign_out; p_callback; p_auth].
 
-(* identity the backend must see: none on a skip-auth path; otherwise the session the response
-   re-saves, or the presented one *)
-Definition identity_expected (wl : bool) (presented : option ProxyCore.session) (ob : obs) : option ProxyCore.session :=
+(* identity the backend must see: none on a skip-auth path; otherwise the session the response re-saves
+   when that Set-Cookie is visible, else the presented session updated by what the authenticator answered
+   to the due refresh / revalidation (C03's vocabulary: ReqHeaders.asserted_session) *)
+Definition due_of (now : Z) (allowed : list str) (s : ProxyCore.session) (a : ProxyCore.answers) : ReqHeaders.due :=
+  let groups_then (k : list str -> ReqHeaders.due) :=
+    if ReqHeaders.no_group_check allowed then k []
+    else match ProxyCore.user_groups a with ProxyCore.UgOk ug => k ug | _ => ReqHeaders.GraceFallback end in
+  if (ProxyCore.s_refresh_dl s <? now)%Z then
+    match ProxyCore.redeem_refresh a with
+    | ProxyCore.RrOk tok _ => groups_then (ReqHeaders.RefreshDue tok)
+    | _ => ReqHeaders.GraceFallback
+    end
+  else if (ProxyCore.s_valid_dl s <? now)%Z then
+    match ProxyCore.a_validate a with
+    | ProxyCore.St c => if (c =? 200)%Z then groups_then ReqHeaders.ValidateDue else ReqHeaders.GraceFallback
+    | ProxyCore.Transport => ReqHeaders.GraceFallback
+    end
+  else ReqHeaders.NotDue.
+
+Definition identity_expected (wl : bool) (now : Z) (allowed : list str) (presented : option ProxyCore.session)
+    (a : ProxyCore.answers) (ob : obs) : option ReqHeaders.session :=
   if wl then None
-  else match ob_session ob with
-       | ProxyCore.CSaved s' => Some s'
-       | _ => presented
+  else match ob_session ob, presented with
+       | ProxyCore.CSaved s', _ => Some (rh_session s')
+       | _, Some s => Some (ReqHeaders.asserted_session allowed (rh_session s) (due_of now allowed s a))
+       | _, None => None
        end.
 
 Definition injected (u : iupstream) (k : str) : list str :=
@@ -220,13 +239,13 @@ Definition backend_ok (d : deployment) (u : iupstream) (q : request) (a : answer
   (* C01: whitelisted (Proxy route only), or a session in order under THAT upstream's policy and provider *)
   negb (mem_str (rq_path q) fixed_paths) && ((wl && negb fav) || sess_ok) &&
   (* C03: identity headers are that session's; client-supplied ones are gone; no session cookie *)
-  match identity_expected wl presented ob with
+  match identity_expected wl now (p_groups (Hostmux.u_policy (up_hm u))) presented (an_auth a) ob with
   | None => nilb (Signer.hvals Signer.x_forwarded_user h) && nilb (Signer.hvals Signer.x_forwarded_email h) &&
             nilb (Signer.hvals Signer.x_forwarded_groups h) && nilb (Signer.hvals Signer.x_forwarded_access_token h)
   | Some s =>
-      strs_eqb (Signer.hvals Signer.x_forwarded_user h) [ProxyCore.s_user s] &&
-      strs_eqb (Signer.hvals Signer.x_forwarded_email h) [ProxyCore.s_email s] &&
-      strs_eqb (Signer.hvals Signer.x_forwarded_groups h) [join [44] (ProxyCore.s_groups s)] &&
+      strs_eqb (Signer.hvals Signer.x_forwarded_user h) [ReqHeaders.s_user s] &&
+      strs_eqb (Signer.hvals Signer.x_forwarded_email h) [ReqHeaders.s_email s] &&
+      strs_eqb (Signer.hvals Signer.x_forwarded_groups h) [join [44] (ReqHeaders.s_groups s)] &&
       strs_eqb (Signer.hvals Signer.x_forwarded_access_token h) (injected u ReqHeaders.k_xfat)
   end &&
   forallb (fun nv => negb (str_eqb (fst nv) (dp_cookie_name d))) (ob_cookies b) &&
@@ -385,5 +404,5 @@ Definition diag (cs : case) : list (N * bool) :=
     (6, match oc_client o with
         | RespHeaders.Resp st h => negb (list_eqb Corr_C18.hval_eqb (RespHeaders.hget RespHeaders.k_set_cookie h) (ob_set ob))
         | _ => false end);
-    (7, negb (CorrProxy.effect_close (oc_session o) (ob_session ob)));
+    (7, negb (CorrProxy.effect_close (visible_session (dp_cookie_name d) (oc_client o) (oc_session o)) (ob_session ob)));
     (8, negb (list_eqb call_eqb (oc_calls o) (ob_calls ob))) ].
